@@ -243,6 +243,7 @@ struct SimThreading
 
 	static void verifPoint(const char * tag) { S().point(tag); }
 	static void verifAccess(const void * obj, bool write, const char * what) { S().access(obj, write, what); }
+	static void verifForget(const void * obj) { S().forget(obj); }   // a freshly allocated object: whatever lived at this address before is gone
 };
 
 } // namespace sim
